@@ -8,11 +8,12 @@
 import Proofs.FitCoherent
 import Proofs.ReplaceValid
 import Proofs.PlacementValid
+import Proofs.OpGuardSetBlock
 namespace PM
 
 /-! ### fillers are valid -/
 
-theorem canonicalMarks_nil (S : Schema) : canonicalMarks S [] = true := by
+theorem canonicalMarks_nil_fit (S : Schema) : canonicalMarks S [] = true := by
   simp [canonicalMarks]
 
 theorem createAndFillO_valid (S : Schema) (hdet : DetS S) (hleaf : PM.FromDom.LeafOk S) :
@@ -45,11 +46,11 @@ theorem createAndFillO_valid (S : Schema) (hdet : DetS S) (hleaf : PM.FromDom.Le
           split
           · rename_i hl
             refine ⟨?_, rfl, fun s m h => by cases h⟩
-            rw [checkNode_leaf, canonicalMarks_nil]
+            rw [checkNode_leaf, canonicalMarks_nil_fit]
             simp only [Bool.true_and, Schema.validContent, List.all_nil, Bool.and_true]
             exact hleaf ty hl
           · refine ⟨?_, rfl, fun s m h => by cases h⟩
-            rw [checkNode_elem, canonicalMarks_nil]
+            rw [checkNode_elem, canonicalMarks_nil_fit]
             simp only [Bool.and_true, Bool.and_eq_true, Schema.validContent, htypes, hacc, true_and,
               List.all_eq_true]
             refine ⟨?_, (checkKids_iff S kids).2 (fun k hk => (hkv k hk).1)⟩
@@ -250,7 +251,7 @@ theorem rightOpenValid_open (S : Schema) (ty : TypeId) (at_ : Attrs) (content : 
     subst this
     rw [fappend_singleton_elem, rightOpenValid_snoc]
     simp only [rightOpenValid] at hv ⊢
-    simp [hv, canonicalMarks_nil, hc]
+    simp [hv, canonicalMarks_nil_fit, hc]
   | b + 1, frag, r, h, hv => by
     unfold addToFragment at h
     split at h
@@ -289,7 +290,7 @@ theorem openValid_open (S : Schema) (ty : TypeId) (at_ : Attrs) (content : List 
         simp only [leftOpenValid, Bool.and_eq_true] at hv
         have hr : rightOpenValid S 1 (rest ++ [.elem ty at_ [] content]) = true := by
           rw [rightOpenValid_snoc]
-          simp [hv.2, canonicalMarks_nil, rightOpenValid, hc]
+          simp [hv.2, canonicalMarks_nil_fit, rightOpenValid, hc]
         cases rest with
         | nil =>
           simp only [List.nil_append] at hr
@@ -611,5 +612,60 @@ theorem replaceStep_empty_valid (S : Schema) (hdet : DetS S) (hleaf : PM.FromDom
           have hcv := closeFit_valid S hdet hleaf hpt hattrs st0.frontier st0.placed rf.depth hlen hp0 c.1 c.2 hc
           exact fitEmit_valid S rf rt mi _ c.1 c.2 st h hcv
     · simp [throw, throwThe, MonadExceptOf.throw] at h
+
+/-! ### groundwork for placed slices -/
+
+/-- **a node the Fitter opened is accepted when `close_frontier_node` closes it**: at a coherent level above
+    the ghost level the match is the state after all children, and `fill_before(…, True)` leads from
+    there to a valid end — the children followed by the fillers are accepted by the node's type -/
+theorem levelOK_close_accepts (S : Schema) (hdet : DetS S) (hts : TextStableP S) (D g : Nat) (base : List FItem)
+    (j : Nat) (it : FItem) (F a : List Node) (q : Nat) (hg : g < j) (hl : LevelOK S D g base j it F)
+    (hq : it.st = some q) (hfill : fillOpt S (S.dfa it.ty) q [] true = .ok (some a)) :
+    (S.dfa it.ty).accepts (S.types (fappend F a)) = true := by
+  obtain ⟨⟨s, q0, h1, h2, h3⟩, _⟩ := hl
+  unfold cohStart at h1
+  rw [if_neg (by omega)] at h1
+  simp only [Option.some.injEq] at h1
+  subst h1
+  unfold cohKids at h3
+  rw [if_neg (by omega)] at h3
+  rw [hq] at h2
+  simp only [Option.some.injEq] at h2
+  subst h2
+  have htys := fillBeforeNodes_types S _ _ _ _ a (liftRaise_ok hfill)
+  obtain ⟨_, q1, hrun, hfin⟩ := fillBeforeTypes_sound S (S.dfa it.ty) (hdet it.ty) q [] true _ htys
+  have hend : (S.dfa it.ty).validEnd q1 = true := by simpa [fillFinished, Dfa.run] using hfin
+  have : (S.dfa it.ty).run 0 (S.types (fappend F a)) = some q1 := by
+    apply run_fappend_some hts
+    rw [Dfa.run_append, h3]
+    exact hrun
+  unfold Dfa.accepts
+  rw [this]
+  exact hend
+
+/-- the marks `place_nodes` leaves on a node are allowed by the frontier node's type … -/
+theorem allowsMarks_allowedMarks (nt : NodeType) (ms : Marks) : nt.allowsMarks (nt.allowedMarks ms) = true := by
+  simp only [NodeType.allowsMarks, NodeType.allowedMarks, List.all_eq_true, List.mem_filter]
+  intro m hm
+  exact hm.2
+
+theorem canonicalMarks_allowedMarks (S : Schema) (nt : NodeType) (ms : Marks) (h : canonicalMarks S ms = true) :
+    canonicalMarks S (nt.allowedMarks ms) = true := by
+  rw [canonicalMarks_iff_canonP] at h ⊢
+  exact h.sublist List.filter_sublist
+
+/-- … and a valid node stays valid under that filtering -/
+theorem checkNode_withMarks_allowed (S : Schema) (nt : NodeType) (n : Node) (h : S.checkNode n = true) :
+    S.checkNode (n.withMarks (nt.allowedMarks n.marks)) = true := by
+  cases n with
+  | text s m =>
+    simp only [checkNode_text, Node.withMarks, Node.marks] at h ⊢
+    exact canonicalMarks_allowedMarks S nt m h
+  | leaf t a m =>
+    simp only [checkNode_leaf, Node.withMarks, Node.marks, Bool.and_eq_true] at h ⊢
+    exact ⟨canonicalMarks_allowedMarks S nt m h.1, h.2⟩
+  | elem t a m k =>
+    simp only [checkNode_elem, Node.withMarks, Node.marks, Bool.and_eq_true] at h ⊢
+    exact ⟨⟨h.1.1, canonicalMarks_allowedMarks S nt m h.1.2⟩, h.2⟩
 
 end PM
